@@ -11,6 +11,11 @@ TIE = "Tie.C05"
 DRIVER = "c05_driver.py"
 SHARD = 40
 THEOREMS = [
+    "C05_cache_transparent_mixed",
+    "C05_cache_transparent_state_mixed",
+    "C05_cache_transparent_static_mixed",
+    "C05_answers_are_uncached_mixed",
+    "C05_homogeneous_histories_are_mixed",
     "C05_cache_transparent",
     "C05_cache_transparent_state",
     "C05_cache_transparent_static",
@@ -24,6 +29,7 @@ RULE = ("histories of 5-40 operations over 1-4 registries (invalidating, verifyi
         "through a sub-registry / swap one entry / rebuild / same lookup) on the "
         "registry or a base, registry __bases__, interface __bases__ of a required specification, "
         "classImplements / classImplementsOnly / classImplementsFirst, directlyProvides / alsoProvides / "
+        "noLongerProvides; the empty declaration _empty as a required spec and objects providing nothing; "
         "noLongerProvides on looked-up objects; entry points: lookup, lookup1, lookupAll, names, "
         "subscriptions, queryAdapter, adapter_hook, queryMultiAdapter, subscribers.  Every case is run "
         "in full and, for up to 12 probed lookups, again on a fresh world with all earlier queries "
@@ -37,22 +43,27 @@ TRUSTED_BASE = [
     "(done by the driver from the implementation's own __bases__)",
 ]
 ASSUMPTIONS = [
-    "theorems: histories of ONE registry flavour (all invalidating or all verifying), registries addressed "
-    "after their creation, bases earlier in creation order (acyclic registry graph); rebuild() included "
-    "(it used to forget the sub-registries, in the code too: repaired, see Example C05_rebuild_witness_transparent); the tie also runs "
-    "verifying-over-invalidating chains, which the theorems do not cover",
+    "theorems: well-formed MIXED histories (Spec/RegChain.mwf_op): registries addressed after their creation, "
+    "bases earlier in creation order (acyclic registry graph), invalidating registries have invalidating bases "
+    "only, verifying registries bases of either flavour; rebuild() included (it used to forget the "
+    "sub-registries, in the code too: repaired, see Example C05_rebuild_witness_transparent)",
     "generated histories never re-base an interface used as *provided* or one of its ancestors (outside the "
     "property; the theorems do not need this: extendors are stored state, so the caches stay transparent, "
     "only freshness of the answer is lost upstream)",
+    "histories with rebuild() use one totally ordered provided family: rebuild() replays registrations in "
+    "nested-dictionary order, the flat model in insertion order, and the two agree for unambiguous lookups "
+    "(C09_rebuild_order_irrelevant_for_unambiguous, C09_regsys_reachable_inv in Properties/C09.v; proofs in Proofs/TrieEnum.v, "
+    "BookkeepingLink.v)",
     "the specification graph stays acyclic; (__name__, __module__) keys are unique within a world",
     "registered values do not touch registries or declarations when called",
 ]
 TECHNIQUE = ("Coq proof (invariant CacheValid over the shared registry model extended with a dynamic specification "
-             "graph, on top of C06's chain invariants) + vm_compute correspondence with both implementations + "
-             "direct differential test of the property on the code (every probed lookup re-run on a fresh world "
-             "with all earlier lookups erased)")
+             "graph, on top of C06's mixed chain invariant MInv) + vm_compute correspondence with both "
+             "implementations + direct differential test of the property on the code (every probed lookup re-run "
+             "on a fresh world with all earlier lookups erased)")
 LEVEL_TEXT = ("Machine-checked theorems (Properties/C05.v, closed under the global context): for every well-formed "
-              "history of either flavour over any specification graph, with registrations, subscriptions, registry "
+              "history over invalidating and verifying registries in one graph (verifying over invalidating "
+              "included) and any specification graph, with registrations, subscriptions, rebuild(), registry "
               "__bases__ and specification __bases__ changes interleaved with every lookup entry point, each "
               "lookup-family answer equals (a) its answer in the history with all earlier queries erased, (b) its "
               "answer after emptying every cache, (c) the entry point run on empty caches over the C3 chain of the "
@@ -62,7 +73,8 @@ LEVEL_TEXT = ("Machine-checked theorems (Properties/C05.v, closed under the glob
 LEVEL_NOTE = ("Trusted: Coq kernel/vm_compute; the shared transcriptions Model/Adapter, Lookup, RegSys and "
               "Model/CacheSys (validated by the correspondence); fresh_sro as the orders lookups walk (C02); the "
               "driver's translation of declaration calls into the __bases__ assignments it observes.  Not covered by "
-              "the theorems: mixed-flavour chains (tested only), weak-reference death of subscribed specifications.")
+              "the theorems: weak-reference death of subscribed specifications; process-wide damage to shared "
+              "specifications (the _empty singleton defect repaired by /repo 5b52a45 is caught by the tie only).")
 
 MUT_KINDS = ("rebuild", "reorder", "register", "unregister", "subscribe", "unsubscribe", "setregbases", "setspecbases",
              "classimplements", "directlyprovides", "alsoprovides", "nolongerprovides")
@@ -103,6 +115,9 @@ def gen_world(rng, chain_p=False):
         c = rng.choice(classes)
         direct = RC._consistent_bases(specs, [x for x in R if rng.random() < 0.25][:2])
         objects.append({"cls": c, "direct": direct})
+    if rng.random() < 0.3:
+        # an object that provides nothing: its __provides__ is the empty declaration _empty
+        objects[rng.randrange(3)] = {"cls": rng.choice(classes), "direct": [], "empty": True}
     return {"specs": specs, "objects": objects}, R, P, classes
 
 
@@ -126,6 +141,8 @@ class Sim:
 
     def obj_anc(self, j):
         o = self.objects[j]
+        if o.get("empty"):
+            return {0}
         a = set(self.anc(o["cls"]))
         for d in o["direct"]:
             a |= self.anc(d)
@@ -140,7 +157,10 @@ class Sim:
 def gen_case(rng, n_target):
     # rebuild() replays the registrations in nested-dictionary order, the flat model in insertion
     # order: the two can only differ in the relative order of UNRELATED provided interfaces in the
-    # extendors lists, so histories with rebuild() use one totally ordered provided family.
+    # extendors lists, so histories with rebuild() use one totally ordered provided family.  That
+    # the replay order is irrelevant for unambiguous lookups is proved by builder-C09:
+    # C09_rebuild_order_irrelevant_for_unambiguous (coq/Properties/C09.v, proof in Proofs/TrieEnum.v) with
+    # C09_regsys_reachable_inv (coq/Proofs/BookkeepingLink.v).
     with_rebuild = rng.random() < 0.3
     world, R, P, classes = gen_world(rng, chain_p=with_rebuild)
     sim = Sim(world, R, P, classes)
@@ -150,10 +170,13 @@ def gen_case(rng, n_target):
         n_regs = rng.choice([2, 3, 3, 4])
     ops, triples = [], []
     reg_bases = []
+    # mixed: the first n_push registries are invalidating, the later ones verifying (an invalidating
+    # registry can only have invalidating bases; a verifying one bases of either flavour)
+    n_push = rng.randrange(1, n_regs) if n_regs >= 2 else 1
     for r in range(n_regs):
         bs = [b for b in range(r) if rng.random() < 0.6][-2:]
         bs.reverse()
-        f = fl if fl != "mixed" else ("verifying" if r == n_regs - 1 and r > 0 else "push")
+        f = fl if fl != "mixed" else ("verifying" if r >= n_push else "push")
         ops.append(["newreg", f, bs])
         reg_bases.append(bs)
     key_pool = R + classes + [0]
@@ -190,6 +213,8 @@ def gen_case(rng, n_target):
         for i, x in enumerate(req):
             if focus is not None and focus[0] == i:
                 out.append(focus[1])
+            elif conv(x) == 0 and rng.random() < 0.3:
+                out.append("E")     # the empty declaration: only registrations for Interface / None apply
             else:
                 cand = [d for d in sim.desc(conv(x)) if d in look_pool]
                 out.append(rng.choice(cand or look_pool))
@@ -584,6 +609,7 @@ def gen_case(rng, n_target):
                 i = rng.choice(wanted or own)
                 o["direct"] = [d for d in o["direct"] if d != i]
                 mut = [k, j, i]
+            o.pop("empty", None)      # any declaration call replaces the object's __provides__
             changed = before ^ sim.obj_anc(j)
             emit(probe_for_spec(changed, focus_obj=j), mut, k)
     return {"specs": world["specs"], "objects": world["objects"], "ops": ops, "triples": triples,
@@ -610,10 +636,19 @@ def _lN(a):
     return "[" + "; ".join("%d%%N" % x for x in a) + "]"
 
 
+def _concrete(x, eid):
+    if x == "E":
+        return eid
+    if isinstance(x, list):
+        return [_concrete(y, eid) for y in x]
+    return x
+
+
 def _cop_terms(case, obs):
     """one list of Coq cop terms + aligned answers + index map (driver op index -> cop index)"""
     terms, answers, index = [], [], {}
     for i, op in enumerate(case["ops"]):
+        op = _concrete(op, obs["empty_id"])
         index[i] = len(terms)
         if op[0] in SPEC_OPS:
             for x, bs in obs["assigns"][i]:
